@@ -462,6 +462,52 @@ func (f *Flow) Reach(q Query) ([]Pt, bool) {
 					facts = nf
 				}
 			}
+			// an error variable assigned the nil literal (or an error literal) is known nil (non-nil) from here on
+			if as, isAs := pt.B.Nodes[pt.I].(*ast.AssignStmt); isAs && len(corr) > 0 && len(as.Lhs) == len(as.Rhs) && (as.Tok == token.ASSIGN || as.Tok == token.DEFINE) {
+				var add map[string]bool
+				for i, l := range as.Lhs {
+					id, isID := ast.Unparen(l).(*ast.Ident)
+					if !isID {
+						continue
+					}
+					o := objOf(f.Info, id)
+					v, isVar := o.(*types.Var)
+					if !isVar || v.IsField() || !isErrorType(v.Type()) {
+						continue
+					}
+					key := v.Name() + " == nil@" + itoa(int(v.Pos()))
+					if _, tracked := corr[key]; !tracked {
+						continue
+					}
+					rhs := ast.Unparen(as.Rhs[i])
+					known, val := false, false
+					if isNilIdent(f.Info, rhs) {
+						known, val = true, true
+					} else if u, isU := rhs.(*ast.UnaryExpr); isU && u.Op == token.AND {
+						if _, isCL := ast.Unparen(u.X).(*ast.CompositeLit); isCL {
+							known, val = true, false
+						}
+					} else if call, isCall := rhs.(*ast.CallExpr); isCall && isCall_(f.Info, call, "fmt.Errorf", "errors.New") {
+						known, val = true, false
+					}
+					if known {
+						if add == nil {
+							add = map[string]bool{}
+						}
+						add[key] = val
+					}
+				}
+				if len(add) > 0 {
+					nf := map[string]bool{}
+					for k, v := range facts {
+						nf[k] = v
+					}
+					for k, v := range add {
+						nf[k] = v
+					}
+					facts = nf
+				}
+			}
 			return []state{{Pt{pt.B, pt.I + 1}, facts}}
 		}
 		var out []state
@@ -1717,3 +1763,6 @@ func (f *Flow) rawBetween(from, mid, to token.Pos) bool {
 	}
 	return reach(pf, pm, pf) && reach(pm, pt, pf)
 }
+
+
+func isCall_(info *types.Info, call *ast.CallExpr, names ...string) bool { return isCall(info, call, names...) }
